@@ -147,8 +147,11 @@ func (w *world) p4history(steps int) {
 			}
 			f := s.fars[i]
 			f.Act = 0x0C
-			if r.Intn(2) == 0 {
+			switch r.Intn(3) {
+			case 0:
 				f.Fwd = nil
+			case 1: // buffering, with (new) forwarding parameters towards a gNB other sessions may use
+				f.Fwd = &sysh.FwdIE{Dst: u8p(0), Ohc: u32p2(uint32(80000+r.Intn(1000)), uint32(0xC6120100)+uint32(r.Intn(3)))}
 			}
 			if w.mod(s.a, s.up, modReq{uf: []sysh.FarIE{f}}, "buffer").Cause == 1 {
 				s.fars[i] = f
